@@ -329,7 +329,7 @@ func vmCheck(sz vmSizes) func(c *core.Ctx, cases []engCase) []core.Outcome {
 				continue
 			}
 			ans, err := parseSx(res[pi])
-			if err != nil || ans.head() != "vm" || len(ans.args()) != 3+len(p.atts) {
+			if err != nil || ans.head() != "vm" || len(ans.args()) != 4+len(p.atts) {
 				o.Fail = &core.Failure{Kind: "correspondence-break", Key: "W:driver-answer", Summary: p.which + " program: the Lean driver did not answer the request", Expected: "(vm wf …)", Got: res[pi]}
 				continue
 			}
@@ -350,9 +350,47 @@ func vmCheck(sz vmSizes) func(c *core.Ctx, cases []engCase) []core.Outcome {
 				o.Fail = &core.Failure{Kind: "correspondence-break", Key: "W:untyped:" + opname, Summary: fmt.Sprintf("StackTyping.typed is false for the %s program of %q (options %d): no consistent grouping-stack typing (height and kind of every slot at every instruction boundary); first failing instruction: %s: %v", p.which, cs.Pattern, cs.Opts, opname, p.code.Codes), Expected: "typed", Got: "untyped at " + opname}
 				continue
 			}
+			// C13 section 6 (W:stackcap): the hypothesis of vm_stack_never_grows evaluated per program, the observed depth
+			// against the static bound, and the real slice lengths of the pooled runner against the model's
+			if sc := args[3]; sc.head() == "stackcap" && len(sc.args()) == 3 {
+				var mh, sAlloc, cAlloc int
+				fmt.Sscan(sc.args()[0].atom, &mh)
+				fmt.Sscan(sc.args()[1].atom, &sAlloc)
+				fmt.Sscan(sc.args()[2].atom, &cAlloc)
+				tc := p.code.TrackCount
+				deep := 0
+				for ai := range p.atts {
+					if p.atts[ai].maxStack > deep {
+						deep = p.atts[ai].maxStack
+					}
+				}
+				snap := regexp2.VerifRunnerSnapshot(p.re)
+				switch {
+				case mh+2 > 4*tc:
+					o.Fail = &core.Failure{Kind: "correspondence-break", Key: "W:stackcap:height", Summary: fmt.Sprintf("%s program of %q (options %d): the largest height of the grouping-stack typing is %d, so H+2 > 4*TrackCount = %d: the hypothesis under which the runstack doubling of ensureStorage is dead code (vm_stack_never_grows) fails: %v", p.which, cs.Pattern, cs.Opts, mh, 4*tc, p.code.Codes), Expected: fmt.Sprintf("maxHeight+2 <= %d", 4*tc), Got: fmt.Sprint(mh + 2)}
+				case deep > mh+2:
+					o.Fail = &core.Failure{Kind: "correspondence-break", Key: "W:stackcap:depth", Summary: fmt.Sprintf("%s program of %q (options %d) on %q: executeDefault used %d grouping-stack slots, more than maxHeight+2 = %d (vm_stack_no_overflow)", p.which, cs.Pattern, cs.Opts, string(p.text), deep, mh+2), Expected: fmt.Sprintf("<= %d", mh+2), Got: fmt.Sprint(deep)}
+				case snap.StackLen != 0 && snap.StackLen != sAlloc:
+					o.Fail = &core.Failure{Kind: "correspondence-break", Key: "W:stackcap:stacklen", Summary: fmt.Sprintf("%s program of %q (options %d) on %q: len(runstack) of the pooled runner is %d after the attempts, the model says it stays at stackAlloc0(TrackCount=%d) = %d (the doubling in ensureStorage is dead code)", p.which, cs.Pattern, cs.Opts, string(p.text), snap.StackLen, tc, sAlloc), Expected: fmt.Sprint(sAlloc), Got: fmt.Sprint(snap.StackLen)}
+				case snap.CrawlLen != 0 && (snap.CrawlLen < cAlloc || snap.CrawlLen%cAlloc != 0 || (snap.CrawlLen/cAlloc)&(snap.CrawlLen/cAlloc-1) != 0):
+					o.Fail = &core.Failure{Kind: "correspondence-break", Key: "W:stackcap:crawllen", Summary: fmt.Sprintf("%s program of %q (options %d) on %q: len(runcrawl) of the pooled runner is %d, not crawlAlloc0 = %d times a power of two", p.which, cs.Pattern, cs.Opts, string(p.text), snap.CrawlLen, cAlloc), Expected: fmt.Sprintf("%d * 2^k", cAlloc), Got: fmt.Sprint(snap.CrawlLen)}
+				}
+				if o.Fail != nil {
+					continue
+				}
+				if snap.StackLen == sAlloc {
+					o.Buckets = append(o.Buckets, "stackcap=never-grew")
+				}
+				if snap.CrawlLen > cAlloc {
+					o.Buckets = append(o.Buckets, "crawlcap=doubled")
+				}
+			} else {
+				o.Fail = &core.Failure{Kind: "correspondence-break", Key: "W:driver-answer", Summary: p.which + " program: no stackcap field in the driver's answer", Expected: "(stackcap h s c)", Got: sxRender(args[3])}
+				continue
+			}
 			for ai := range p.atts {
 				a := &p.atts[ai]
-				want, got := a.render(), sxRender(args[3+ai])
+				want, got := a.render(), sxRender(args[4+ai])
 				if want == got {
 					continue
 				}
@@ -360,8 +398,8 @@ func vmCheck(sz vmSizes) func(c *core.Ctx, cases []engCase) []core.Outcome {
 				full := vmRunGo(p.re, p.text, a.pos, a.textstart, p.which == "quick", sz.maxSteps, sz.maxSteps)
 				key, detail := "W:result", ""
 				if r2, err := c.RunDriver([]string{vmLine(regexp2.RegexOptions(cs.Opts), p.code, p.text, [][2]int{{a.pos, a.textstart}}, sz.maxSteps+1, sz.maxSteps)}); err == nil {
-					if a2, err := parseSx(r2[0]); err == nil && len(a2.args()) == 3 {
-						la := a2.args()[2]
+					if a2, err := parseSx(r2[0]); err == nil && len(a2.args()) == 5 {
+						la := a2.args()[4]
 						if strings.HasPrefix(la.head(), "fault-") {
 							key = "W:" + la.head()
 						}
